@@ -923,6 +923,25 @@ SEEDS["C04_namedtuple_memos_snapshot_aliases"] = ("C04", [(A, """        single_
 
 def _dtype_is_numpy_struct_array(dtype):"""), (A, "    Literal,\n", "    Literal,\n    NamedTuple,\n")], "C04")
 
+# table-driven rewrites (normalised by jtsa/inline.py unroll_new_tables): the refactoring itself is a twin
+# (benign corpus), a wrong row in the table is a seed
+SEEDS["C01_dispatch_table_fixed_axis_checked_as_named"] = ("C01", [("@diff", "benign/RX/1.diff", None), (A, """    _FixedDim: _check_fixed_dim,
+""", """    _FixedDim: _check_named_dim,
+""")], "C01")
+SEEDS["C01_dispatch_table_missing_symbolic_row"] = ("C01", [("@diff", "benign/RX/1.diff", None), (A, """    _SymbolicDim: _check_symbolic_dim,
+""", "")], "C01")
+SEEDS["C14_modifier_table_row_dropped"] = ("C14", [("@diff", "benign/RY/2.diff", None), (A, """    (
+        "?",
+        "Do not use ? twice to denote dependence on location "
+        "within a PyTree, e.g. `??foo` is not allowed",
+    ),
+""", "")], "C14")
+SEEDS["C14_modifier_table_twice_check_dropped"] = ("C14", [("@diff", "benign/RY/2.diff", None), (A, """                        if seen[modifier]:
+                            raise ValueError(twice_msg)
+""", "")], "C14")
+SEEDS["C19_flag_table_wrong_attribute"] = ("C19", [("@diff", "benign/RV/3.diff", None), (C, """                setattr(self, flag, _maybestr2bool(value, msg))""", """                setattr(self, "jaxtyping_disable", _maybestr2bool(value, msg))""")], "C19")
+SEEDS["C19_flag_table_env_not_read"] = ("C19", [("@diff", "benign/RV/3.diff", None), (C, """            self.update(flag, os.environ.get(flag.upper(), "0"))""", """            self.update(flag, "0")""")], "C19")
+
 # ---- variants modelled on independent sub-agent seeds (see /verif/seeded/)
 SEEDS["C16_skip_already_seen_leaf_objects"] = ("C16", [(P, """        for leaf_index, leaf in enumerate(leaves):
             if cls.structure is None:""", """        checked_ids = set()
